@@ -55,8 +55,11 @@ inductive Loc where
 deriving DecidableEq, Repr
 
 structure FontSpec where
-  /-- 0 simple font, 1 composite font with Identity CMap, 2 composite font with predefined CMap -/
+  /-- 0 simple font, 1 composite font with Identity CMap and no collection, 2 composite font with a
+  predefined CMap, 3 composite font with Identity CMap and a predefined character collection -/
   kind : Nat
+  /-- writing mode of the font's CMap (`-V` names): selects the vertical unicode table -/
+  vertical : Bool
   /-- index of the base encoding table (unknown names fall back to table 0) -/
   base : Nat
   /-- `/Differences` in source order: (code, unicode value of the glyph name); `none`: the glyph name
@@ -122,7 +125,8 @@ deriving DecidableEq, Repr
 structure World where
   encInit : List (List (Nat Ã— Nat))
   loadCMap : Nat â†’ Option (List (Nat Ã— Nat))
-  loadUMap : Nat â†’ Option (List (Nat Ã— Nat))
+  /-- a `to-unicode-*` file holds TWO tables: horizontal and vertical writing -/
+  loadUMap : Nat â†’ Option (List (Nat Ã— Nat) Ã— List (Nat Ã— Nat))
 
 /-- `_get_objects(stream)`: the objects parsed out of object stream `sid` -/
 def streamObjs (d : DocSpec) (sid : Nat) : List (Nat Ã— Nat) :=
@@ -145,7 +149,7 @@ def freshObj (d : DocSpec) (n : Nat) : Option Nat :=
 structure Tables where
   enc : List (List (Nat Ã— Nat))
   cmaps : List (Nat Ã— List (Nat Ã— Nat))
-  umaps : List (Nat Ã— List (Nat Ã— Nat))
+  umaps : List (Nat Ã— (List (Nat Ã— Nat) Ã— List (Nat Ã— Nat)))
 deriving DecidableEq, Repr
 
 /-- a built font: everything `to_unichr` / `decode` consult -/
@@ -164,8 +168,9 @@ def getCMap (W : World) (t : Tables) (name : Nat) : Option (List (Nat Ã— Nat)) Ã
   let r := memo true W.loadCMap t.cmaps name
   (r.1, { t with cmaps := r.2 })
 
-/-- `CMapDB.get_unicode_map` -/
-def getUMap (W : World) (t : Tables) (name : Nat) : Option (List (Nat Ã— Nat)) Ã— Tables :=
+/-- `CMapDB.get_unicode_map`: the cache is keyed by the collection name and holds BOTH tables -/
+def getUMap (W : World) (t : Tables) (name : Nat) :
+    Option (List (Nat Ã— Nat) Ã— List (Nat Ã— Nat)) Ã— Tables :=
   let r := memo true W.loadUMap t.umaps name
   (r.1, { t with umaps := r.2 })
 
@@ -183,6 +188,10 @@ def getEncoding (enc : List (List (Nat Ã— Nat))) (base : Nat) (diffs : List (Nat
 def useCMapEffect (W : World) (t : Tables) (spec : FontSpec) : Tables :=
   if spec.hasToUnicode && spec.usecmap != 0 then (getCMap W t spec.usecmap).2 else t
 
+/-- the CMap of a composite font: Identity-H/V are built in, every other name goes through CMapDB -/
+def cmapStep (W : World) (t : Tables) (spec : FontSpec) : Option (List (Nat Ã— Nat)) Ã— Tables :=
+  if spec.kind = 3 then (none, t) else getCMap W t spec.cmap
+
 /-- font construction (`PDFSimpleFont.__init__`, `PDFCIDFont.__init__`); may load CMaps -/
 def buildFont (W : World) (t : Tables) (spec : FontSpec) (src : List (Option Nat)) : Font Ã— Tables :=
   let t1 := useCMapEffect W t spec
@@ -193,12 +202,13 @@ def buildFont (W : World) (t : Tables) (spec : FontSpec) (src : List (Option Nat
   else if spec.kind = 1 then
     ({ kind := 1, enc := [], tounicode := tou, cmap := none, umap := none, src := src }, t1)
   else
-    let r := getCMap W t1 spec.cmap
+    let r := cmapStep W t1 spec
     if spec.hasToUnicode then
-      ({ kind := 2, enc := [], tounicode := tou, cmap := r.1, umap := none, src := src }, r.2)
+      ({ kind := spec.kind, enc := [], tounicode := tou, cmap := r.1, umap := none, src := src }, r.2)
     else
       let u := getUMap W r.2 spec.umap
-      ({ kind := 2, enc := [], tounicode := tou, cmap := r.1, umap := u.1, src := src }, u.2)
+      ({ kind := spec.kind, enc := [], tounicode := tou, cmap := r.1,
+         umap := u.1.map (fun p => if spec.vertical then p.2 else p.1), src := src }, u.2)
 
 def notdef (cid : Nat) : List Nat := [1114112 + cid]
 
@@ -216,7 +226,7 @@ def decodeGlyph (f : Font) (code : Nat) : Option (List Nat) :=
     | some u => some u
     | none => some (notdef code)
   else
-    match f.cmap.bind (alookup code) with
+    match (if f.kind = 3 then some code else f.cmap.bind (alookup code)) with
     | none => none
     | some cid =>
       match viaToU cid with
